@@ -45,14 +45,15 @@ PROBES = ['server:after-banner', 'server:after-command', 'server:mid-line',
           'client:banner', 'client:ehlo', 'client:mail', 'client:rcpt',
           'client:data', 'client:eod', 'client:quit', 'client:starttls',
           'client:tls-immediately', 'client:trickle', 'client:partial-reply',
-          'client:pipe', 'client:http', 'client:lmtp', 'client:reuse']
+          'client:pipe', 'client:http', 'client:lmtp', 'client:reuse',
+          'client:idle-partial']
 STATES_MEASURE = 'distinct (side, relay kind, stage, stall shape, pipelining) tuples'
 STEP_CAP = 400000
 SRV_STAGES = ['after-banner', 'after-command', 'after-command', 'mid-line',
               'in-data', 'in-data', 'after-eod', 'auth-continuation',
               'tls-handshake']
 CL_STAGES = ['connect', 'banner', 'ehlo', 'mail', 'rcpt', 'data', 'eod', 'eod',
-             'quit', 'starttls', 'tls-immediately', 'rset']
+             'quit', 'starttls', 'tls-immediately', 'rset', 'idle-partial']
 
 
 def generate(seed, tier='quick'):
@@ -314,6 +315,14 @@ def _client(world, scn, result):
             bound_stage = to['data'] or to['command']
         elif stage == 'rset':
             tx['a0'] = {'mail': [{'code': '550'}], 'rset': [act]}
+        elif stage == 'idle-partial':
+            # a kept-alive connection on which the server, while idle, sends
+            # the start of an unsolicited line and then nothing
+            conn['idle_421'] = 1.0
+            conn['idle_partial'] = True
+            rs['idle_timeout'] = 30.0
+            if not attempts or attempts[0]['tag'] != 'w0':
+                attempts.insert(0, {'tag': 'w0', 'rcpts': ['warm@d.example']})
         rs['conn_scripts'] = [conn, conn]
         rs['tx_scripts'] = tx
     elif kind in ('pipe', 'pipe1'):
@@ -354,7 +363,7 @@ def _client(world, scn, result):
         ok = world.wait(g, budget)
         t1 = world.loop._now
         if att['tag'] != 'a0':
-            gevent.sleep(0.2)
+            gevent.sleep(3.0 if stage == 'idle-partial' else 0.2)
             continue
         # when did the peer start stalling?
         t_stall = t0
